@@ -45,7 +45,7 @@ def gen(rng, tier):
 def extra(tier, seed, st):
     """the same kind of cases on a -race build; any DATA RACE report is a violation"""
     import random
-    wdir = os.path.join(VERIF, "harness", "worker")
+    wdir = os.path.join(build.HARNESS, "worker")
     racebin = os.path.join(build.BUILD, "worker-C11-race")
     rc, outp = build.sh(["go", "build", "-race", "-tags", "verif", "-o", racebin, "main.go", "sexp.go", "treeio.go", "c11.go"],
                         cwd=wdir, env=build.GOENV, timeout=900)
